@@ -5,6 +5,7 @@ import Proofs.C08Methods
 import Proofs.C08Spec
 import Proofs.C08Plain
 import Proofs.C08Order
+import Proofs.C08Syn
 /-!
   C08 — a decode value is indistinguishable from its JSON value in read-only jq.
 
@@ -37,6 +38,8 @@ import Proofs.C08Order
                               bits valid UTF-8, no decoded -2^63), NoNullKey (D3), NoQuirk (known findings);
     `indistinguishable_up_to_member_order` + `tovalue_ignores_member_order`   (D1) in general: any tree,
                               after putting the members of every struct in sorted order;
+    `noNullKey_syntactic`, `noQuirk_syntactic`, `indistinguishable_syntactic`   syntactic sufficient
+                              conditions for the two semantic hypotheses;
     `member_order_witness`, `null_key_witness`, `indistinguishable_spec_needs_known`   each hypothesis is needed.
   No case of the induction failed; nothing new about fq came out of it.
 -/
@@ -343,6 +346,28 @@ theorem indistinguishable (ff : UInt64 → Option Bytes) (q : Q) (d : DV)
   have h1 : ResEq (q.eval Mode.real ff (wrap d)) (q.eval Mode.strict ff (wrap d)) :=
     ((eval_rk ff q (wrap d)).trans hquirk).trans hnull
   exact ResSim_of_ResEq h1 (eval_sim ff q hdoc (wrap d) hgood)
+
+/-- the two semantic hypotheses of `indistinguishable` have syntactic sufficient conditions: a query
+    without `.k` cannot show (D3); a query without `.[i]`, `{(k):v}` and `length` cannot show a
+    recorded deviation (those are the only constructs that read the respective flag) -/
+theorem noNullKey_syntactic (ff : UInt64 → Option Bytes) (q : Q) (idx obj len : Bool)
+    (h : Syn false idx obj len q) (v : Val) : NoNullKey ff q v :=
+  noNullKey_of_syn ff q idx obj len h v
+
+theorem noQuirk_syntactic (ff : UInt64 → Option Bytes) (q : Q) (fld : Bool)
+    (h : Syn fld false false false q) (v : Val) : NoQuirk ff q v :=
+  noQuirk_of_syn ff q fld h v
+
+/-- `indistinguishable` without semantic hypotheses: for every query built from identity, .[a:b], .[],
+    .., pipe, comma, literals, [..], keys, has, type, paths, to_entries, tojson, tostring, tonumber,
+    ==, <, sort, +, -, if, //, try (no `.k`, `.[i]`, `{(k):v}`, `length`) that names no extra key, and
+    every decode tree with sorted members and valid raw bits -/
+theorem indistinguishable_syntactic (ff : UInt64 → Option Bytes) (q : Q) (d : DV)
+    (hdoc : DocOK q) (hsyn : Syn false false false false q) (hgood : GoodDV d) :
+    ResSim (q.eval Mode.real ff (wrap d)) (q.eval Mode.real ff (Val.ofJV d.toValue)) :=
+  indistinguishable ff q d hdoc hgood
+    (noNullKey_of_syn ff q false false false hsyn (wrap d))
+    (noQuirk_of_syn ff q false hsyn (wrap d))
 
 /-- (D1), compositional form: `tovalue` does not see the order of struct members — -/
 theorem tovalue_ignores_member_order (d : DV) : (DV.sortFields d).toValue = d.toValue :=
